@@ -11,6 +11,7 @@ import (
 	"os/exec"
 	"path/filepath"
 	"sync/atomic"
+	"syscall"
 	"testing"
 	"time"
 
@@ -137,6 +138,13 @@ func c04RunOnce(tree *h.Tree, dstDir string, c *c04Case, f *c04Fault) *c04Run {
 	run := &c04Run{}
 	mem := &h.MemFS{T: tree, LinkSizeFull: true}
 	var src fsutil.FS = mem
+	if c.Capacity != 1 && !c.DiskSrc {
+		// (two cases in three: the source is seen through a filter that hides nothing;
+		// the faults of the source pass through the library's own view code)
+		if fv, err := fsutil.NewFilterFS(mem, &fsutil.FilterOpt{ExcludePatterns: []string{"zz-never-there"}}); err == nil {
+			src = fv
+		}
+	}
 	if c.DiskSrc && c.srcDir != "" {
 		if dfs, err := fsutil.NewFS(c.srcDir); err == nil {
 			src = dfs
@@ -186,7 +194,8 @@ func c04RunOnce(tree *h.Tree, dstDir string, c *c04Case, f *c04Fault) *c04Run {
 	if f != nil {
 		switch f.Kind {
 		case "walk":
-			mem.WalkErrAt, mem.WalkErr = f.K, errInjected
+			// (errors of different identity: none of them means "the entry went away")
+			mem.WalkErrAt, mem.WalkErr = f.K, [...]error{errInjected, syscall.ESTALE, syscall.EIO, &os.PathError{Op: "lstat", Path: "x", Err: syscall.ESTALE}}[f.K%4]
 		case "read":
 			// K-th regular non-link file in walk order
 			n := 0
@@ -194,7 +203,7 @@ func c04RunOnce(tree *h.Tree, dstDir string, c *c04Case, f *c04Fault) *c04Run {
 				if nd.Kind == h.KFile && nd.LinkTo == "" {
 					n++
 					if n == f.K {
-						mem.ReadErrPath, mem.ReadErrAt, mem.ReadErr = nd.Path, f.J, errInjected
+						mem.ReadErrPath, mem.ReadErrAt, mem.ReadErr = nd.Path, f.J, [...]error{errInjected, io.ErrUnexpectedEOF, syscall.EIO, io.ErrNoProgress}[(f.K+f.J)%4]
 					}
 				}
 			}
